@@ -57,6 +57,12 @@ def main(argv):
             if rng.random() < 0.1:
                 ops.insert(0, ['indent_again'])   # ... and the default options when none were given yet
             cases.append(T.c_hist(['l', [['s', x] for x in lines]], hdr, ops))
+    # the ready-made indentizers, with the indentor argument omitted, SPACES, TAB and None ("spaces by default")
+    for which in ('all', 'first'):
+        for arg in ('omit', 'spaces', 'tab', 'none'):
+            for form in ('list', 'str'):
+                for _ in range(3):
+                    cases.append(T.c_helper(which, arg, G.rand_content(rng, 1), form))
     step = 0x8000
     for lo in range(0, 0x110000, step):
         cases.append(T.c_table('space', lo, step))
